@@ -11,6 +11,12 @@ import { pathToFileURL } from "node:url";
 import { AsyncLocalStorage } from "node:async_hooks";
 
 const out = (o) => process.stdout.write(JSON.stringify(o) + "\n");
+// A promise rejected with nobody listening, or an exception thrown outside any promise chain,
+// terminates a Node process. Here it is reported to the kernel as an event of the run in which
+// it happened (and the process lives on, so the run can be replayed and minimised).
+const describeCrash = (e) => (e && e.name ? e.name + ": " : "") + (e && e.message ? e.message : String(e));
+process.on("unhandledRejection", (e) => out({ t: "crash", kind: "unhandledRejection", message: describeCrash(e) }));
+process.on("uncaughtException", (e) => out({ t: "crash", kind: "uncaughtException", message: describeCrash(e) }));
 const worlds = new Map(); // world -> { clients: {Svc: class}, routes: {Svc: factory}, errors: [] }
 let pendingFetch = new Map(); // fid -> {resolve, reject}
 let pendingHandle = new Map(); // hid -> {resolve, reject}
